@@ -98,6 +98,11 @@ def run_op(model, op, inputs, seed):
         with quiet():
             res = model.simulate(algorithm="simulate", seed=seed, features=inputs["features"], visit_parameters=inputs["table_design"])
         return res.data.to_dataframe() if hasattr(res, "data") else res.to_dataframe()
+    if op.endswith("_dataset"):
+        # the caller's own tensor Dataset (the library does not build a private one in that case)
+        with quiet():
+            ip = model.personalize(inputs["dataset"], algorithm_settings=inputs["settings"][op[:-len("_dataset")]])
+        return ip.to_dataframe()
     settings = inputs["settings"][op]
     with quiet():
         ip = model.personalize(inputs["data"], algorithm_settings=settings)
@@ -132,7 +137,8 @@ def make_inputs(n_ft, seed, n_src):
                 "mean_posterior": AlgorithmSettings("mean_posterior", seed=seed, progress_bar=False, n_iter=12,
                                                     annealing=dict(do_annealing=True, initial_temperature=3.0, n_plateau=3, n_iter=None, n_iter_frac=0.5)),
                 "mode_posterior": AlgorithmSettings("mode_posterior", seed=seed, progress_bar=False, n_iter=12)}
-    return dict(df=df, data=Data.from_dataframe(df), ip=ip, timepoints={ids[0]: [66.0, 71.5, 80.0], ids[1]: [69.25]}, settings=settings,
+    from leaspy.io.data import Dataset
+    return dict(df=df, data=Data.from_dataframe(df), dataset=Dataset(Data.from_dataframe(df.copy())), ip=ip, timepoints={ids[0]: [66.0, 71.5, 80.0], ids[1]: [69.25]}, settings=settings,
                 features=[f"f{k}" for k in range(n_ft)],
                 visit_parameters=dict(patient_number=3, visit_type="random", first_visit_mean=0.0, first_visit_std=0.4, time_follow_up_mean=4, time_follow_up_std=1,
                                       distance_visit_mean=1.0, distance_visit_std=0.2, min_spacing_between_visits=0.5),
@@ -145,7 +151,9 @@ def inputs_fingerprint(inputs):
                 settings={k: copy.deepcopy(s.parameters) for k, s in inputs["settings"].items()},
                 seeds={k: s.seed for k, s in inputs["settings"].items()}, visit=copy.deepcopy(inputs["visit_parameters"]),
                 table=inputs["table_design"]["df_visits"].copy(deep=True), table_dtypes=list(map(str, inputs["table_design"]["df_visits"].dtypes)),
-                table_keys=sorted(inputs["table_design"]))
+                table_keys=sorted(inputs["table_design"]),
+                dataset={k: v.clone() for k, v in vars(inputs["dataset"]).items() if isinstance(v, torch.Tensor)},
+                dataset_ids=list(inputs["dataset"].indices))
 
 
 def inputs_unchanged(fp, inputs, what, violations):
@@ -155,6 +163,11 @@ def inputs_unchanged(fp, inputs, what, violations):
         violations.append(dict(key=f"{what}: the Data object passed in was modified"))
     if fp["ip"] != inputs["ip"]._individual_parameters or fp["timepoints"] != inputs["timepoints"]:
         violations.append(dict(key=f"{what}: the individual parameters / timepoints passed in were modified"))
+    now = {k: v for k, v in vars(inputs["dataset"]).items() if isinstance(v, torch.Tensor)}
+    if set(now) != set(fp["dataset"]) or list(inputs["dataset"].indices) != fp["dataset_ids"] or \
+            any(v.shape != fp["dataset"][k].shape or not torch.equal(torch.nan_to_num(v.double(), nan=-12345.0), torch.nan_to_num(fp["dataset"][k].double(), nan=-12345.0)) for k, v in now.items()):
+        bad = [k for k, v in now.items() if k not in fp["dataset"] or v.shape != fp["dataset"][k].shape or not torch.equal(torch.nan_to_num(v.double(), nan=-12345.0), torch.nan_to_num(fp["dataset"][k].double(), nan=-12345.0))]
+        violations.append(dict(key=f"{what}: the Dataset object passed in was modified", tensors=bad))
     for k, s in inputs["settings"].items():
         if fp["settings"][k] != s.parameters or fp["seeds"][k] != s.seed:
             violations.append(dict(key=f"{what}: the AlgorithmSettings object passed in was modified ({k})"))
@@ -175,7 +188,7 @@ def standin_histories(tier, seed):
             base = fit_model(kind, kw, n_ft, seed)
             inputs = make_inputs(n_ft, seed, n_src)
             ops = OPS if n_src else OPS[:-1]
-            extra_ops = ["simulate_table"] if n_src else []
+            extra_ops = (["simulate_table"] if n_src else []) + ["scipy_minimize_dataset", "mean_posterior_dataset"]
             # reference: each operation on a freshly loaded model
             ref = {}
             for op in ops + extra_ops:
@@ -188,7 +201,8 @@ def standin_histories(tier, seed):
                 evals += 1
                 inputs_unchanged(fp, inputs, op, violations)          # the very first use of the inputs is monitored too
             histories = [(a,) for a in ops + extra_ops] + list(itertools.product(ops, ops))
-            if extra_ops:      # the table-driven design: alone, repeated (the same table re-used), before and after another call
+            histories += [("scipy_minimize_dataset", "scipy_minimize_dataset"), ("mean_posterior_dataset", "scipy_minimize_dataset")]
+            if "simulate_table" in extra_ops:      # the table-driven design: alone, repeated (the same table re-used), before and after another call
                 histories += [("simulate_table", "simulate_table"), ("simulate_table", "estimate"), ("scipy_minimize", "simulate_table")]
             for origin in ("fitted", "loaded"):
                 for hist in histories:
